@@ -510,6 +510,83 @@ def handleCollector (input impl : Json) : R Reply := do
          tags := ["collector", s!"nodes={nodes}"] ++ (if (boolF impl "race_build").toOption.getD false then ["race-build"] else []),
          key := s!"collector:{nodes}:{nUp}:{nBlock}:{rounds}" }
 
+/-! ### "pipeline" -/
+
+structure PipeUp where
+  log : Bool
+  always : Bool
+  eligibleAt : List Int
+  createAt : Int
+
+def handlePipeline (input impl : Json) : R Reply := do
+  let pj ← field input "pipeline"
+  let nodes ← natF pj "nodes"
+  let ups ← listF (fun j => do
+      let isLog ← boolF j "log"
+      let alw ← boolF j "always"
+      let el ← listF asInt j "eligible_at"
+      let cr ← intF j "create_at"
+      pure (PipeUp.mk isLog alw el cr)) pj "upkeeps"
+  let performs ← listFD (fun j => do pure ((← intF j "block"), (← natF j "upkeep"))) pj "performs"
+  let batches ← listFD (fun j => do
+      pure ((← intF j "at"), (← listF (fun q => do pure ((← natF q "upkeep"), (← intF q "block"))) j "payloads"))) pj "batches"
+  let concurrent := (boolF pj "concurrent_checks").toOption.getD false
+  let err ← strF impl "err"
+  let crash := (strF impl "crash").toOption.getD ""
+  let races := (natF impl "races").toOption.getD 0
+  let raceSites := (listF asStr impl "race_sites").toOption.getD []
+  let mutated ← natF impl "mutated"
+  let handed ← natF impl "handed"
+  let mutatedAt := (strF impl "mutated_at").toOption.getD ""
+  let results ← listF (fun j => do
+      pure ((← natF j "batch"), (← natF j "node"), (← intF j "idx"), (← intF j "upkeep"), (← intF j "block"), (← boolF j "eligible"),
+            (← boolF j "same_work"), (← boolF j "recorded"), (← boolF j "logged"), (strF j "err").toOption.getD "")) impl "results"
+  let history ← listF (fun j => do pure ((← natF j "node"), (← natF j "upkeep"), (← listF asInt j "final"))) impl "history"
+  -- model: what each node must answer for payload i of batch k
+  let histOf (u : Nat) (upTo : Int) : List Int :=
+    performHistory (((performs.filter fun p => p.2 = u && decide (p.1 ≤ upTo)).map (·.1)).mergeSort (fun a b => decide (a ≤ b)))
+  let wantOf (atB : Int) (p : Nat × Int) : Bool :=
+    match ups[p.1]? with
+    | none => false
+    | some u => checkEligible (if decide (u.createAt ≤ atB) then some ⟨!u.log, u.always, u.eligibleAt⟩ else none) (histOf p.1 atB) p.2
+  let expected : List (Nat × Nat × Int × Int × Int × Bool) :=
+    ((List.range batches.length).zip batches).flatMap fun (k, (atB, ps)) =>
+      (List.range nodes).flatMap fun n =>
+        ((List.range ps.length).zip ps).map fun (i, p) => (k, n, (i : Int), (p.1 : Int), p.2, wantOf atB p)
+  let got : List (Nat × Nat × Int × Int × Int × Bool) := results.map fun (k, n, i, u, b, e, _, _, _, _) => (k, n, i, u, b, e)
+  let lastBlock : Int := 1000000
+  let wantHist : List (Nat × Nat × List Int) :=
+    (List.range nodes).flatMap fun n => ((List.range ups.length).zip ups).filterMap fun (u, pu) =>
+      if pu.log then none else some (n, u, histOf u lastBlock)
+  let callErrs := results.filter fun r => r.2.2.2.2.2.2.2.2.2 ≠ ""
+  let sameResults := decide (got = expected)
+  let sameHist := decide (history = wantHist)
+  let agree := err = "" && crash = "" && callErrs.isEmpty && (concurrent || sameResults) && sameHist
+  -- Ω: the per-node half of the f+1-checks clause, and no handed-out history rewritten
+  let unrecorded := results.filter fun (_, _, i, _, _, _, sw, rec, lg, _) => decide (i ≥ 0) && !(sw && rec && lg)
+  let si := err = "" && crash = "" && races = 0 && callErrs.isEmpty && unrecorded.isEmpty && mutated = 0
+  let fail :=
+    if si then ""
+    else if races ≠ 0 then s!"data race in repository code ({races}): {raceSites.eraseDups}"
+    else if crash ≠ "" then s!"chain components crashed: {crash}"
+    else if err ≠ "" then s!"scenario failed: {err}"
+    else if !callErrs.isEmpty then s!"CheckUpkeeps failed or did not return one result per payload: {(callErrs.head?.map (·.2.2.2.2.2.2.2.2.2)).getD ""}"
+    else if mutated ≠ 0 then s!"a perform history handed out by PerformsForUpkeepID was rewritten afterwards ({mutated} of {handed} retained slices; the check pipeline reads them without the tracker's lock): {mutatedAt}"
+    else match unrecorded.head? with
+      | some (k, n, i, u, b, _, sw, rec, lg, _) =>
+        s!"a node returned a check result for a check block at which its own record has no check of that upkeep (batch {k} node {n} payload {i}: upkeep {u} check block +{b}; collector entry {rec}, contract-log line {lg}, work id kept {sw}): the f+1-checks clause rests on these records"
+      | none => "?"
+  let maxPerf := ((List.range ups.length).map fun u => (performs.filter fun p => p.2 = u).length).foldl max 0
+  let dupDiff := batches.any fun (_, ps) => ps.any fun p => ps.any fun q => decide (p.1 = q.1) && decide (p.2 ≠ q.2)
+  let dupSame := batches.any fun (_, ps) => decide ((ps.filter fun p => (ps.filter (· == p)).length ≥ 2).length > 0)
+  pure { agree := agree, specModel := true, specImpl := si, fail := fail,
+         diff := if agree then "" else s!"pipeline: err={err} crash={crash} results_equal={sameResults} history_equal={sameHist} model_history={wantHist.head?.map (·.2.2)} impl_history={history.head?.map (·.2.2)} first_diff={(got.zip expected).find? (fun (a, b) => a ≠ b)}",
+         nontrivial := decide (batches.length ≥ 1),
+         tags := ["pipeline", s!"nodes={nodes}"] ++ (if decide (maxPerf > 33) then ["upkeep-performed>33"] else []) ++
+           (if dupDiff then ["one-upkeep-two-check-blocks"] else []) ++ (if dupSame then ["same-payload-twice"] else []) ++
+           (if concurrent then ["concurrent-checks"] else []) ++
+           (if (boolF impl "race_build").toOption.getD false then ["race-build"] else []) }
+
 /-! ### "db" -/
 
 def handleDB (input impl : Json) : R Reply := do
@@ -588,6 +665,7 @@ def handle (input impl : Json) : R Reply := do
   | "resave" => handleResave input impl
   | "collector" => handleCollector input impl
   | "db" => handleDB input impl
+  | "pipeline" => handlePipeline input impl
   | k => throw s!"unknown C20 case kind {k}"
 
 end AutoVerif.C20
